@@ -409,6 +409,8 @@ func (g *gen) genOp() Op {
 			}
 		case StBadges:
 			op.Ref = refPerson()
+			op.IsSys = g.r.IntN(5) == 0
+			op.Sys = op.IsSys && g.r.IntN(4) != 0 || g.r.IntN(12) == 0
 		case StNotes, StTickets:
 			if g.r.IntN(5) != 0 {
 				op.Ref = refPerson()
@@ -453,7 +455,9 @@ func (g *gen) genOp() Op {
 			g.checker(&op, fields)
 		case StBadges:
 			op.Ref = refPerson()
-			g.checker(&op, []string{"owner"})
+			op.IsSys = g.r.IntN(6) == 0
+			op.Sys = sh.BadgeSys[op.Id] && g.r.IntN(4) != 0 || g.r.IntN(12) == 0
+			g.checker(&op, []string{"owner", "isSystem"})
 		case StNotes:
 			op.Ref = refPerson()
 			g.checker(&op, []string{"about"})
@@ -470,12 +474,34 @@ func (g *gen) genOp() Op {
 		}
 		if p, ok := sh.People[op.Id]; ok && p.Sys && (op.S == StPeople || op.S == StStaff || op.S == StPX) {
 			op.Sys = g.r.IntN(4) != 0
+		} else if op.S == StBadges && sh.BadgeSys[op.Id] {
+			op.Sys = g.r.IntN(4) != 0
 		} else {
 			op.Sys = g.r.IntN(12) == 0
 		}
+		if op.S == StPeople || op.S == StStaff || op.S == StPX {
+			for bid, o := range sh.Badges {
+				if o == op.Id && sh.BadgeSys[bid] && g.r.IntN(2) == 0 {
+					op.Sys = true // the cascade reaches a system badge
+				}
+			}
+		}
 	case "deleteWhere":
-		op.K, op.S = "deleteWhere", pick(g.r, []string{StNotes, StTickets, StBadges})
+		op.K, op.S = "deleteWhere", pick(g.r, []string{StNotes, StTickets, StBadges, StPeople, StPeople, StStaff})
 		op.Q = pick(g.r, U.People[:len(U.People)-nHostilePeople]) // query text only from values the existing suite pins
+		if op.S == StPeople || op.S == StStaff {
+			op.Q = pick(g.r, U.Names)
+			if ps := keysOf(sh.People); g.valid() && len(ps) > 0 {
+				op.Q = sh.People[pick(g.r, ps)].Name
+			}
+			if p := sh.People; len(p) > 0 {
+				for _, x := range p {
+					if x.Name == op.Q && x.Sys {
+						op.Sys = g.r.IntN(3) != 0
+					}
+				}
+			}
+		}
 	case "link":
 		op.K = pick(g.r, []string{"addLinks", "removeLinks", "setLinks", "setLinks", "addLink", "removeLink"})
 		op.S = pick(g.r, []string{StPeople, StGroups})
